@@ -96,7 +96,8 @@ Definition to_bits (f : f64) : N := Z.to_N (bits_of_b64 (BSN2B 53 1024 default_n
 
 Definition fzero : f64 := BinarySingleNaN.B754_zero false.
 
-(* mpz_get_d / mpq_get_d : truncation toward zero of n/d; infinity when |n/d| >= 2^1024 *)
+(* mpz_get_d / mpq_get_d : truncation toward zero of n/d; infinity when |n/d| >= 2^1024;
+   a quotient below the smallest subnormal gives +0.0 for either sign *)
 Definition d_of_Q (n : Z) (d : positive) : f64 :=
   match n with
   | Z0 => fzero
@@ -107,7 +108,7 @@ Definition d_of_Q (n : Z) (d : positive) : f64 :=
     else
       let k := Z.min 1074 (Z.max 0 (64 + Z.log2 (Zpos d) - Z.log2 a)) in
       let m := (a * 2 ^ k) / Zpos d in
-      BinarySingleNaN.binary_normalize 53 1024 _ _ mode_ZR (if s then - m else m) (- k) s
+      BinarySingleNaN.binary_normalize 53 1024 _ _ mode_ZR (if s then - m else m) (- k) false
   end.
 Definition d_of_Z (z : Z) : f64 := d_of_Q z 1.
 
